@@ -224,8 +224,8 @@ func c05BulkSwaps(c *rep.Ctx) {
 			}
 			ok = ok && latest && len(sets) >= 2 && recvObj(info, flush[0].Call) == b &&
 				g.Dominated(sl[0].Node, nodesOf(flush)) && len(g.CallsTo(c05StoreSet, c05NewTx)) == 0
-			// the new tip is element 0 of the new branch
-			if ix, isIx := ast.Unparen(sl[0].Call.Args[0]).(*ast.IndexExpr); !isIx || an.ObjOf(info, ix.X) != f.ParamObj(0) {
+			// the new tip is element 0 of the new branch (a once-defined local holding the element is resolved)
+			if len(sl[0].Call.Args) != 1 || !c05IsElemZero(g, sl[0].Call.Args[0], f.ParamObj(0)) {
 				ok = false
 			}
 		}
@@ -295,6 +295,37 @@ func c05BulkSwaps(c *rep.Ctx) {
 		}
 		c.Check("bulk-swap", "chain.(*ChainDB).dropBlock|commit-then-memory", f.Pos(), ok, "dropping a block deletes index, block, receipts and moves the latest pointer in one committed transaction before the in-memory tip moves back")
 	}
+}
+
+// c05IsElemZero: e is param[0] (constant index 0 of the never reassigned slice parameter), directly or through
+// locals that are defined exactly once.
+func c05IsElemZero(g *an.Graph, e ast.Expr, param types.Object) bool {
+	info := g.Fn.Info()
+	if param == nil || !g.SingleDefOrParam(param) {
+		return false
+	}
+	for i := 0; i < 4; i++ {
+		e = ast.Unparen(e)
+		if ix, isIx := e.(*ast.IndexExpr); isIx {
+			tv, has := info.Types[ix.Index]
+			return an.ObjOf(info, ix.X) == param && has && tv.Value != nil && tv.Value.ExactString() == "0"
+		}
+		o := an.ObjOf(info, e)
+		if v, isVar := o.(*types.Var); !isVar || v.IsField() {
+			return false
+		}
+		rhs, idx := g.SingleDef(o)
+		if rhs == nil || idx != 0 {
+			return false
+		}
+		if tv, has := info.Types[rhs]; has {
+			if _, isTuple := tv.Type.(*types.Tuple); isTuple {
+				return false
+			}
+		}
+		e = rhs
+	}
+	return false
 }
 
 func c05LoopCoversDescendingParam(info *types.Info, fs *ast.ForStmt, param types.Object) bool {
